@@ -239,6 +239,65 @@ def run(ctx):
         if bad:
             sl.fail(dict(case, trace=trace), bad[1], "slow/" + bad[0])
 
+    # the command line entry point with several -i files: every file is its own transfer with its own lines
+    mf = Stream("main-several-files")
+    import os
+    import sys
+    import tempfile
+    import shutil
+    from senaite.astm import simulator
+    tmpd = tempfile.mkdtemp(prefix="astm-c19-")
+    try:
+        for _ in range(200 if ctx.thorough else 30):
+            files = [gen_lines(r) for _ in range(r.choice([1, 2, 3]))]
+            paths = []
+            for i, ls in enumerate(files):
+                pth = os.path.join(tmpd, "f%d.txt" % i)
+                with open(pth, "wb") as fh:
+                    fh.write(b"".join(l if l.endswith(b"\n") else l + b"\n" for l in ls))
+                paths.append(pth)
+            peers = []
+
+            async def fake_open(address, port, *a, **kw):
+                p_ = ScriptedPeer([b"\x06"] * 50)
+                peers.append(p_)
+                return p_, p_
+            orig_open, orig_argv = asyncio.open_connection, sys.argv
+            simulator.asyncio.open_connection = fake_open
+            sys.argv = ["simulator", "-a", "127.0.0.1", "-p", "4010", "-i"] + paths
+            old_loop = impl.ensure_loop()
+            loop = asyncio.new_event_loop()
+            asyncio.set_event_loop(loop)
+            err = None
+            try:
+                try:
+                    simulator.main()
+                except SystemExit:
+                    pass
+                except Exception as e:  # noqa
+                    err = type(e).__name__
+            finally:
+                simulator.asyncio.open_connection, sys.argv = orig_open, orig_argv
+                asyncio.set_event_loop(old_loop)
+                try:
+                    loop.close()
+                except Exception:
+                    pass
+            def units_of(path):
+                with open(path, "rb") as fh:
+                    ls = fh.readlines()
+                return [b"\x05"] + [l.strip(b"\r\n") for l in ls if l.strip(b"\r\n")] + [b"\x04"]
+            exp = sorted(units_of(p_) for p_ in paths)
+            got = sorted([e[1] for e in p_.log if e[0] == "W"] for p_ in peers)
+            case = {"files": [[hexb(l) for l in ls] for ls in files]}
+            mf.case(case, nontrivial=len(files) > 1)
+            if err or got != exp:
+                mf.fail(dict(case, error=err, sent=[[hexb(u) for u in t] for t in got][:3]),
+                        "simulator -i with %d files does not send every file as its own ENQ / lines / EOT transfer" % len(files),
+                        "main/transfers")
+    finally:
+        shutil.rmtree(tmpd, ignore_errors=True)
+
     # two files under way at the same time to the same server: each transfer is judged on its own
     c2 = Stream("concurrent-transfers")
     for _ in range(1500 if ctx.thorough else 200):
@@ -255,7 +314,7 @@ def run(ctx):
                 c2.fail(dict(case, transfer=which, trace=tr), "transfer %s while the other was under way: %s" % (which, bad[1]),
                         "concurrent/" + bad[0])
                 break
-    return [s, sl, c2]
+    return [s, sl, mf, c2]
 
 
 def search(ctx, disagreements):
